@@ -572,8 +572,21 @@ def batch_facet(ctx, workdir):
 def _select(cases, rnd, limit):
     if limit is None or len(cases) <= limit:
         return cases
-    # always keep behaviours that contain a freshload / reinit / split (the interesting ones), sample the rest
-    return rnd.sample(cases, limit)
+    # always keep the behaviours that load a checkpoint and then sample again (every checkpoint position, with and
+    # without warm-up) and those that re-initialise; sample the rest
+    def core(c):
+        ops = [e["op"] for e in c["prog"]]
+        if "reinit" in ops:
+            return True
+        if "freshload" in ops:
+            i = ops.index("freshload")
+            return any(e["op"] == "sample" and e["n"] > 0 for e in c["prog"][i + 1:])
+        return False
+    keep = [c for c in cases if core(c)]
+    if len(keep) > limit:
+        keep = rnd.sample(keep, limit)
+    rest = [c for c in cases if not core(c)]
+    return keep + rnd.sample(rest, min(len(rest), max(limit - len(keep), limit // 3)))
 
 
 def run(ctx):
